@@ -135,6 +135,7 @@ class Emitter:
         self.macros_emitted = []
         self.cur = None
         self.opaque_types = set()
+        self.ec_consts = []
         self.lambdas_of = {}
         self.lambda_types = {}
         self.lambda_ctx = {}
@@ -227,9 +228,32 @@ class Emitter:
         rd = self.resolve_record(s)
         if rd is not None and self.translatable_record(rd):
             return TI('rec', 'struct ' + self.record_cname(rd), decl=rd)
+        if rd is None and '::' in s:
+            # member typedef of a class template instantiation (X<...>::client_service)
+            if not hasattr(self, '_tdnorm'):
+                self._tdnorm = {q.replace(' ', ''): v for q, v in self.ast.typedefs.items()}
+            key = s.replace('boost::mqtt5::', '').replace(' ', '')
+            tgt = self._tdnorm.get(key)
+            if tgt and tgt != s and not getattr(self, '_in_alias2', False):
+                self._in_alias2 = True
+                try:
+                    return self._T(tgt)
+                finally:
+                    self._in_alias2 = False
         if '(' in s and ')' in s and rd is None and not s.startswith('(lambda at'):
             # function (pointer/reference) types
             return TI('fn', 'void *', name=s)
+        # namespace-scope type aliases of the repository (byte_citer, packet_id, ...)
+        if re.match(r'^[A-Za-z_][A-Za-z0-9_:]*$', s):
+            key = s.replace('boost::mqtt5::', '')
+            cands = [v for q, v in self.ast.typedefs.items() if q == key or q.endswith('::' + key)]
+            cands = sorted(set(c for c in cands if c and c != s))
+            if len(cands) == 1 and not getattr(self, '_in_alias', False):
+                self._in_alias = True
+                try:
+                    return self._T(cands[0])
+                finally:
+                    self._in_alias = False
         if not self.opaque_ok:
             raise Unsupported('type outside the tables: %r' % s)
         self.opaque_types.add(s)
@@ -258,6 +282,12 @@ class Emitter:
             bd = self.resolve_record(bn) if bn else None
             if bd is not None:
                 out += self.fields_of(bd)
+            elif bn and self.lib:
+                bti = self.lib.type(self, strip_cv(bn))
+                if bti is not None and bti.kind == 'pair':
+                    # private/public std::pair base: its two members
+                    out.append({'kind': 'FieldDecl', 'name': 'first', 'id': 'synth', 'type': {'qualType': bti.args[0].name or bti.args[0].c}, '_ti': bti.args[0]})
+                    out.append({'kind': 'FieldDecl', 'name': 'second', 'id': 'synth', 'type': {'qualType': bti.args[1].name or bti.args[1].c}, '_ti': bti.args[1]})
         for c in rd.get('inner', []):
             if c.get('kind') == 'FieldDecl':
                 out.append(c)
@@ -269,7 +299,7 @@ class Emitter:
         lines = ['struct %s {' % c]
         flds = self.fields_of(rd)
         for f in flds:
-            ti = self.T(qt(f))
+            ti = f.get('_ti') or self.T(qt(f))
             lines.append('  %s;' % self.decl(ti, f['name'], byref=ti.ref))
         if not flds:
             lines.append('  char _empty;')
@@ -316,7 +346,18 @@ class Emitter:
                 need_sig = True
         if need_sig:
             if fn.get('name') == 'operator()' and sig:
-                base += '__' + sanitize(sig[0])[:60]
+                tag = strip_cv(qt_sugar(plist[0]).replace('&', '').strip())
+                # a tag type (X<...>::on_read): its last component names the continuation
+                depth, cut = 0, -1
+                for i, ch in enumerate(tag):
+                    if ch in '<(':
+                        depth += 1
+                    elif ch in '>)':
+                        depth -= 1
+                    elif ch == ':' and depth == 0:
+                        cut = i
+                tag = tag[cut + 1:] if cut >= 0 else tag
+                base += '__' + sanitize(tag)[:60]
             else:
                 sg = ('_'.join(sanitize(x) for x in sig) if sig else 'void')
                 if len(sg) > 70:
@@ -460,6 +501,10 @@ class Emitter:
             text.append('  ' + l)
         # strip outer braces of compound
         text += stm[1:-1] if stm and stm[0].strip() == '{' else stm
+        if rti_ret.kind == 'void' and not (text and re.search(r'return;\s*$', text[-1])):
+            # falling off the end of a void function is a return point too
+            ctx.nreturns += 1
+            text.append('    /*@RETURN %s %d@*/ ;' % (c, ctx.nreturns))
         text.append('}')
         self.fn_text[c] = '\n'.join(text)
         self.fn_proto[c] = proto + ';'
@@ -543,6 +588,10 @@ class Emitter:
             # implicit / defaulted copy, move or default constructor
             if len(args) == 1:
                 return ['%s = %s;' % (lv, self.e(args[0]))]
+            flds = self.fields_of(ti.decl)
+            if len(args) == len(flds) and len(args) >= 2 and all(f.get('id') == 'synth' for f in flds):
+                # constructor inherited from a std::pair base (using base::base)
+                return ['%s.%s = %s;' % (lv, f['name'], self.e(a)) for f, a in zip(flds, args)]
             if len(args) == 0:
                 out = []
                 for f in self.fields_of(ti.decl):
@@ -876,6 +925,12 @@ class Emitter:
         x = self.e(n)
         if x.startswith('(*') and x.endswith(')') and balanced(x[2:-1]):
             return x[2:-1]
+        if n.get('valueCategory') in ('xvalue', 'prvalue') or re.match(r'^\(?(/\*@CALL[^@]*@\*/)?\w+\(', x) and not x.startswith('(*'):
+            # a temporary that clang did not materialise explicitly (member call on
+            # a by-value result): give it storage
+            ti = self.T(qt(n))
+            t = self.cur.temp(ti)
+            return '(%s = %s, &%s)' % (t, x, t)
         return '&' + x
 
     def e_ParenExpr(self, n):
@@ -1021,11 +1076,39 @@ class Emitter:
             x = self.lib.member(self, n, base, b)
             if x is not None:
                 return x
+        bti0 = self.T(qt(base))
+        if bti0.kind == 'ptr' and n.get('isArrow'):
+            bti0 = bti0.elem
+        if self.opaque_ok and bti0.kind == 'opq':
+            # data member of an object kept opaque: opaque handle, or a getter stub for scalars
+            mt = self.T(qt(n))
+            if mt.kind == 'opq':
+                return '((opq_t)0 /*.%s*/)' % name
+            if mt.kind in ('int', 'ec', 'it', 'dur') and n.get('valueCategory') != 'lvalue':
+                key = 'stub__get__' + sanitize(name)
+                self.stubs[key] = (mt.c, ['opq_t'])
+                return '%s(%s)' % (key, b)
+            key = 'stub__getref__' + sanitize(name)
+            self.stubs[key] = (mt.c + ' *', ['opq_t'])
+            return '(*%s(%s))' % (key, b)
         fd = self.ast.byid.get(n.get('referencedMemberDecl'))
         if fd is not None and fd.get('kind') == 'FieldDecl':
             fti = self.T(qt(fd))
             acc = '%s->%s' % (b, name) if n.get('isArrow') else '%s.%s' % (b, name)
             return '(*%s)' % acc if fti.ref else acc
+        # member of a (library) base class reached through a derived-to-base cast
+        inner = base
+        while inner.get('kind') in ('ImplicitCastExpr', 'ParenExpr') and inner.get('castKind', 'NoOp') in ('UncheckedDerivedToBase', 'DerivedToBase', 'NoOp'):
+            inner = inner['inner'][0]
+        if inner is not base:
+            iti = self.T(qt(inner))
+            rti = iti.elem if iti.kind == 'ptr' else iti
+            if rti is not None and rti.kind == 'rec':
+                for f in self.fields_of(rti.decl):
+                    if f['name'] == name:
+                        fti = f.get('_ti') or self.T(qt(f))
+                        acc = '%s->%s' % (b, name) if n.get('isArrow') else '%s.%s' % (b, name)
+                        return '(*%s)' % acc if fti.ref else acc
         mti = self.T(qt(n))
         if self.opaque_ok and mti.kind == 'opq':
             # data member of a library base class: opaque handle
@@ -1242,7 +1325,16 @@ class Emitter:
         return self.stub_call(n, rd, args, cnode=cnode)
 
     def force_stub(self, fn):
-        return False
+        """calls that leave the part of the repository this unit puts under
+        contract become stubs (skeleton mode): decided by the unit's inline-only
+        patterns on the callee's qualified name"""
+        pats = getattr(self, 'inline_only', None)
+        if not pats:
+            return False
+        q = fn.get('_qname') or ''
+        for pat, rep in self.aliases:
+            q = re.sub(pat, rep, q)
+        return not any(re.search(p, q) for p in pats)
 
     def callee_param_types(self, cnode):
         """parameter type spellings of a library callee, from the callee expression's function type"""
@@ -1315,7 +1407,8 @@ class Emitter:
                 atys.append('opq_t')
             elif byref_out or ti.kind in ('rec',) or (x.get('valueCategory') != 'prvalue' and ti.kind not in ('int', 'ptr', 'opq', 'ec', 'it', 'dur', 'vit', 'nullopt')):
                 a.append(self.addr(x))
-                atys.append(ti.c + ' *')
+                # only arguments bound to non-const lvalue references may be changed by the callee
+                atys.append(ti.c + (' *' if byref_out else ' * /*in*/'))
             else:
                 a.append(self.e(x))
                 atys.append(ti.c)
@@ -1363,6 +1456,10 @@ class Emitter:
     def e_CXXOperatorCallExpr(self, n):
         rd, full, cnode = self.callee_decl(n)
         args = n['inner'][1:]
+        if full is not None and full.get('name') == 'operator=' and (full.get('isImplicit') or full.get('explicitlyDefaulted')) and len(args) == 2:
+            # implicitly defined / defaulted copy or move assignment: member-wise
+            if self.T(qt(args[0])).kind == 'rec':
+                return '(%s = %s)' % (self.e(args[0]), self.e(args[1]))
         if full is not None and has_body(full) and not self.force_stub(full):
             cn = self.want(full)
             if full.get('kind') == 'CXXMethodDecl' and not self.is_static_method(full):
